@@ -63,11 +63,13 @@ func (c Command) ExecuteIQ(ctx context.Context, iq stanza.IQ, payload xml.TokenR
 	if err != nil {
 		return resp, nil, err
 	}
+	// The error returns below set the named result to nil before deferred
+	// functions run, so hold on to the response in a variable of its own.
+	sent := respPayload
 	defer func() {
-		respPayload := respPayload
-		if err != nil && respPayload != nil {
+		if err != nil {
 			/* #nosec */
-			respPayload.Close()
+			sent.Close()
 		}
 	}()
 	var t xml.Token
